@@ -15,6 +15,10 @@ PROPS = {
     "C07-singletask-stop-skips-lock": ["C07", "C16"], "C14-nested-group-failure-not-seen": ["C14"], "C15-h2-goaway-kills-inflight": ["C15", "C18", "C04"],
     "C16-asyncio-unbounded-app-queue": ["C16", "C08"], "C17-groupby-drops-nonadjacent-headers": ["C17"], "C02-conn-window-update-stream0-ignored": ["C02", "C09", "C08"],
     "C08-block-after-flush-stale": ["C08", "C09"], "C10-reject-before-buffering": ["C10"],
+    "C01-h2-endbody-only-on-flagged-events": ["C01"], "C03-asyncio-write-failure-not-reported": ["C03", "C16"], "C04-unblock-without-buffer-check": ["C04", "C09"],
+    "C05-h2-close-stream-completes-buffer": ["C05"], "C06-recycle-before-close-stream": ["C06", "C03"], "C09-priority-placeholder-left-active": ["C09", "C04"],
+    "C11-ws-close-state-after-send": ["C11"], "C12-streambuffer-push-guard-uses-property": ["C12", "C08", "C02"], "C13-h2-prior-knowledge-replays-read-only": ["C13"],
+    "C18-rst-decrements-request-count": ["C18"], "C19-config-prefix-lstrip": ["C19"], "C20-redirect-host-cached-on-instance": ["C20"],
 }
 claimed = {c["property_id"] for c in json.load(open(os.path.join(HERE, "MANIFEST.json")))["checks"]}
 sel = sys.argv[1:]
